@@ -129,7 +129,11 @@ let process mode oc line =
       let arg k = ub toks.(3 + k) in
       let out =
         match fn with
-        | "single_quote" -> (match single_quote (arg 0) with Some r -> r | None -> bytes_of_string "<err>")
+        | "single_quote" ->
+          (* token after the argument: what the real strconv.Unquote returns for it ("!" = error, "-"/hex = value) *)
+          let u = if Array.length toks > 4 then toks.(4) else "!" in
+          let unq _ = if u = "!" then None else Some (ub u) in
+          (match single_quote unq (arg 0) with Some r -> r | None -> bytes_of_string "<err>")
         | "pg_quote" -> pg_quote (arg 0)
         | "mysql_quote" ->
           (* tokens after the argument: the non-printable non-ASCII runes of the input (decimal) *)
